@@ -222,7 +222,13 @@ macro_rules! impl_derivatives {
 
             #[inline]
             fn atan2(&self, other: Self) -> Self {
-                let mut res = (self / other.clone()).atan();
+                // atan(y/x) and -atan(x/y) differ by a constant: use the quotient that stays
+                // finite, so that the derivatives are correct on the axis x = 0 as well
+                let mut res = if other.re().abs() < self.re().abs() {
+                    -(other.clone() / self).atan()
+                } else {
+                    (self / other.clone()).atan()
+                };
                 res.re = self.re.atan2(other.re);
                 res
             }
